@@ -36,6 +36,10 @@ class Gen(object):
 
     def string(self):
         r = self.rng
+        if r.random() < 0.02:
+            # near the protocol's 32767-character limit, multi-byte
+            return r.choice(('a' * 32767, '中' * 10923, 'я' * 20000,
+                             'é' * 32767))
         return r.choice(('', 'a', 'héllo', '€uro \U0001F600', 'x' * 130,
                          '{"text":"hi"}', 'minecraft:overworld',
                          ''.join(chr(r.randrange(32, 0x2000))
@@ -507,6 +511,39 @@ def run(run):
         roundtrip(run, K, ctx, attrs, cmps, 'program %d: %r' % (i, fields),
                   PacketBuffer)
     run.extra['programs'] = run.counters.get('programs', 0)
+
+    # ---- layouts must not depend on process history ---------------------------
+    if run.shard == 0:
+        import json
+        import subprocess
+        import sys
+        from .. import core
+        snaps = {}
+        for order in ('asc', 'desc'):
+            p = subprocess.run([sys.executable, '-m', 'vf.checks.c05_snapshot',
+                                order], cwd=core.VERIF_DIR,
+                               stdout=subprocess.PIPE, stderr=subprocess.PIPE,
+                               timeout=300)
+            if p.returncode:
+                run.inconclusive_because('layout snapshot (%s) failed: %s' % (
+                    order, p.stderr.decode()[-300:]))
+                break
+            snaps[order] = json.loads(p.stdout.decode())
+        if len(snaps) == 2:
+            run.count('layout_snapshots_compared', len(snaps['asc']))
+            for key, layout in snaps['asc'].items():
+                other = snaps['desc'].get(key)
+                if other != layout:
+                    run.violation(
+                        'layout/history-dependent/%s' % key.split('.')[-1],
+                        'the field layout a packet class reports for a version'
+                        ' depends on which versions were used earlier in the '
+                        'process (oldest-first vs newest-first sweep)',
+                        {'class_and_version': key, 'oldest_first': layout,
+                         'newest_first': other})
+                    break
     run.require('roundtrips', 2000)
     run.require('classes', 40)
     run.require('programs', 50)
+    if run.shard == 0:
+        run.require('layout_snapshots_compared', 5000)
